@@ -524,6 +524,12 @@ func (en *Env) evalCall(x ECall) Term {
 			en.fail("ite branches differ in sort")
 		}
 		return Term{ite(a[0].S, a[1].S, a[2].S), a[1].Sort, a[1].Ty}
+	case "emod": // Euclidean remainder (what a & (2^n - 1) is, also for negative a)
+		a := args()
+		return Term{app("mod", a[0].S, a[1].S), SInt, tInt}
+	case "ediv": // floor division (what a >> n is)
+		a := args()
+		return Term{app("div", a[0].S, a[1].S), SInt, tInt}
 	case "min":
 		a := args()
 		return Term{ite(app("<=", a[0].S, a[1].S), a[0].S, a[1].S), SInt, tInt}
